@@ -587,46 +587,40 @@ func (entry *localFileEntry) RangeMetadata(f func(md metadata.Metadata) error) e
 // compareAndWriteFile updates file with given bytes and returns true only if the file is updated
 // correctly.
 // It returns false if error happened or file already contains desired content.
+// The new content is written to a temporary file in the same directory, which is then renamed
+// over filePath, so that a crash at any point leaves either the previous content (or no file)
+// or the complete new content, never an empty or partially written file.
 func compareAndWriteFile(filePath string, b []byte) (bool, error) {
-	// Check existence.
-	fs, err := os.Stat(filePath)
+	prev, err := os.ReadFile(filePath)
 	if err != nil && !os.IsNotExist(err) {
 		return false, err
 	}
-
-	if os.IsNotExist(err) {
-		if err := os.MkdirAll(filepath.Dir(filePath), 0775); err != nil {
-			return false, err
-		}
-
-		if err := os.WriteFile(filePath, b, 0775); err != nil {
-			return false, err
-		}
-		return true, nil
-	}
-
-	f, err := os.OpenFile(filePath, os.O_RDWR, 0775)
-	if err != nil {
-		return false, err
-	}
-	defer closers.Close(f)
-
-	// Compare with existing data, overwrite if different.
-	buf := make([]byte, int(fs.Size()))
-	if _, err := f.Read(buf); err != nil {
-		return false, err
-	}
-	if bytes.Equal(buf, b) {
+	if err == nil && bytes.Equal(prev, b) {
 		return false, nil
 	}
 
-	if len(buf) != len(b) {
-		if err := f.Truncate(int64(len(b))); err != nil {
-			return false, err
-		}
+	dir := filepath.Dir(filePath)
+	if err := os.MkdirAll(dir, 0775); err != nil {
+		return false, err
 	}
-
-	if _, err := f.WriteAt(b, 0); err != nil {
+	// The name of the temporary file must not match any registered metadata suffix, so that a
+	// leftover is ignored when the entry is reloaded (it is removed together with the directory).
+	tmp, err := os.CreateTemp(dir, ".tmp-")
+	if err != nil {
+		return false, err
+	}
+	_, err = tmp.Write(b)
+	if closeErr := tmp.Close(); err == nil {
+		err = closeErr
+	}
+	if err == nil {
+		err = os.Chmod(tmp.Name(), 0775)
+	}
+	if err == nil {
+		err = os.Rename(tmp.Name(), filePath)
+	}
+	if err != nil {
+		os.Remove(tmp.Name())
 		return false, err
 	}
 	return true, nil
